@@ -188,6 +188,8 @@ func runC09(r *ev.Run) {
 				}
 			}
 			what = runHist(h)
+		} else if a.Mode == "inner" {
+			what = c09Inner(r, &a)
 		} else {
 			for _, f := range w.c09Forgeries(byName) {
 				if f.Name == a.Forgery {
@@ -415,12 +417,14 @@ func runC09(r *ev.Run) {
 	for _, f := range forgeries {
 		kinds[strings.SplitN(f.Name, ":", 2)[0]]++
 	}
+	// Part C: inner signed payloads.
+	c09Inner(r, nil)
 	r.Set("forgery_kinds", kinds)
 	r.Set("histories", total)
 	r.Set("depth", depth)
 	r.Alias("traces_validated_against_impl", "transitions")
-	r.Set("rule", "part A: every history of `depth` blocks over 12 letters (pre-signed transfers of two accounts with nonces 0..2, the same bytes twice in a block, out-of-order pairs, the empty block), executed on a proposer replica and on an on-disk replica restarted before every block: a transaction executes iff its nonce equals the reference nonce of its signer, nonces and balances of both accounts equal the reference after every block (so the same bytes never take effect twice). part B: in the state after a0's first transaction, every single-bit flip of the next valid signed transaction, signer and signature substitution, and the same body signed with the account key under every registered signature context (with and without chain separation, raw ed25519 over the prepared message), under this context for another chain, with truncated and extended chain suffix: each delivered alone in a block must fail and leave the state equal to the twin that executed the empty block")
-	r.Assume("two signers, nonces 0..2", "multi-bit forgeries are not enumerated (would require breaking Ed25519)")
+	r.Set("rule", "part A: every history of `depth` blocks over 12 letters (pre-signed transfers of two accounts with nonces 0..2, the same bytes twice in a block, out-of-order pairs, the empty block), executed on a proposer replica and on an on-disk replica restarted before every block: a transaction executes iff its nonce equals the reference nonce of its signer, nonces and balances of both accounts equal the reference after every block (so the same bytes never take effect twice). part B: in the state after a0's first transaction, every single-bit flip of the next valid signed transaction, signer and signature substitution, and the same body signed with the account key under every registered signature context (with and without chain separation, raw ed25519 over the prepared message), under this context for another chain, with truncated and extended chain suffix: each delivered alone in a block must fail and leave the state equal to the twin that executed the empty block. part C (signed payloads inside correctly enveloped transactions: entity descriptor, each of the five signatures of a node descriptor, an executor commitment of the scheduler, both commitments of executor-equivocation evidence (two results; failure + result), both proposals of proposal-equivocation evidence): the genuine transaction must take effect; with one inner signature replaced by a signature of the right key under every other registered context (with / without chain separation, with the runtime suffix in either position, for another runtime, for another chain; thorough: also truncated / extended / empty chain suffixes for every slot), a signature by another key, an all-zero signature, or a flipped signature bit, the transaction must fail and leave exactly fee and nonce behind (state dump equal to a twin that executed an undecodable transaction of the same signer and fee)")
+	r.Assume("two signers, nonces 0..2", "multi-bit forgeries are not enumerated (would require breaking Ed25519)", "part C: one forged inner signature at a time; the key-manager and SGX-attestation payloads (not reachable in this world: no TEE hardware) are not carriers")
 	r.Finish()
 }
 
